@@ -18,6 +18,7 @@ import Driver.LayoutCmd
 import Driver.ParamCmd
 import Driver.GatesCmd
 import Driver.GrammarCmd
+import Driver.TkCmd
 
 def handlers : List (String → List String → Option String) :=
   [ DV.CoreCmd.handle
@@ -32,6 +33,7 @@ def handlers : List (String → List String → Option String) :=
   , DV.ParamCmd.handle
   , DV.GatesCmd.handle
   , DV.GrammarCmd.handle
+  , DV.TkCmd.handle
   ]
 
 def handle (line : String) : String :=
